@@ -1588,16 +1588,23 @@ ROTATIONS = [
     ("old-only", {"old-files": "4"}),
     ("both", {"max-size": "10kb", "when": "D", "old-files": "2"}),
     ("interval-only", {"interval": "3"}),
+    # sizes beyond 31 / 32 bits are sizes like any other
+    ("size-huge", {"max-size": "2gb", "old-files": "3"}),
+    ("size-huge-no-old", {"max-size": "2147483648"}),
 ]
 ROT_VARIANTS = {
     "size": [{"max-size": "1mb", "old-files": "1"},
              {"max-size": "65536", "old-files": "12"},
-             {"max-size": "3MB", "old-files": "2"}],
+             {"max-size": "3MB", "old-files": "2"},
+             {"max-size": "4gb", "old-files": "1"},
+             {"max-size": "2147483647", "old-files": "2"},
+             {"max-size": "4294967296", "old-files": "2"}],
     "timed": [{"when": "midnight", "old-files": "5"},
               {"when": "h", "old-files": "1", "interval": "6"},
               {"when": "W3", "old-files": "2"},
               {"when": "M", "old-files": "3", "interval": "30"}],
-    "size-no-old": [{"max-size": "1mb", "old-files": "0"}],
+    "size-no-old": [{"max-size": "1mb", "old-files": "0"},
+                    {"max-size": "3GB", "old-files": "0"}],
     "timed-no-old": [{"when": "D"}, {"when": "midnight", "old-files": "0"}],
 }
 DELAYS = [None, "true", "false"]
@@ -1666,7 +1673,8 @@ def random_handler(rng, fileno, valid_bias=0.85):
     elif not good:
         bad = rng.choice(["max-size", "old-files", "when", "delay",
                           "encoding", "delay-false", "interval", "zero"])
-        h.update({"max-size": {"max-size": "5kb"},
+        h.update({"max-size": {"max-size": rng.choice(["5kb", "3gb",
+                                                       "2147483648"])},
                   "old-files": {"old-files": "2"},
                   "when": {"when": "D"},
                   "delay": {"delay": rng.choice(DELAY_SPELLINGS["true"])},
